@@ -69,7 +69,7 @@ def es_part(out, prop, tier, jobs, only, assumptions, functions, bounds):
     return cov
 
 
-def ek_part(out, prop, tier, harnesses, only, assumptions, nsym=None, timeout=2400):
+def ek_part(out, prop, tier, harnesses, only, assumptions, nsym=None, timeout=2400, procs=16, mem_gb=40, soft=()):
     """E-K part of a check: run Kani harnesses [(where, name)], fills `out`, returns coverage dict"""
     import ek
     if only:
@@ -79,8 +79,8 @@ def ek_part(out, prop, tier, harnesses, only, assumptions, nsym=None, timeout=24
     if nsym is not None:
         os.environ['VERIF_NSYM'] = str(nsym)
         ENV['VERIF_NSYM'] = str(nsym)
-    res = ek.run_harnesses(harnesses, timeout=timeout)
-    cov = ek.decide(out, prop, res)
+    res = ek.run_harnesses(harnesses, timeout=timeout, procs=procs, mem_gb=mem_gb)
+    cov = ek.decide(out, prop, res, soft=soft)
     cov['kani'] = 'cargo kani 0.68 / CBMC 6.11 (cadical), -Z stubbing, unwinding assertions on'
     out.assumptions += ['E-K: derivative cache container replaced by a fixed-capacity association array under cfg(kani) (std HashMap contract trusted)',
                         'E-K: std::hash::RandomState::new stubbed; single thread; only harness assertions, unwinding assertions and cover! decide (CBMC float side checks ignored)'] + assumptions
@@ -175,7 +175,8 @@ def check_C10(tier, only):
     hs = C10_EK if tier == 'thorough' else []   # quick: the selector is decided for all getters on the MIR (getter map) in seconds
     cov['E-K'] = ek_part(out, 'C10', tier, [('ext', h) for h in hs], only,
                          ['C10-a: with PolyEos as Residual + IdealGas (polynomial ideal part overriding the provided ln-based method): f(Total) = f(IdealGas) + f(Residual) exactly and each part is its closed form, '
-                          'for one getter per derivative order arm of get_or_compute_derivative (quick: the first-derivative arm, entropy, with concrete generic-position coefficients; thorough: 2+2 symbolic coefficients and all arms); p_ig = rho R T and Total = IdealGas + Residual for the pressure family (thorough)'], nsym=2 if tier == 'thorough' else 0, timeout=10800 if tier == 'thorough' else 3000)
+                          'for one getter per derivative order arm of get_or_compute_derivative (thorough tier only: 2+2 symbolic coefficients and all arms; a harness that exceeds 5400 s / 16 GB is recorded as undecided); p_ig = rho R T and Total = IdealGas + Residual for the pressure family (thorough)'],
+                         nsym=2 if tier == 'thorough' else 0, timeout=5400 if tier == 'thorough' else 3000, procs=3, mem_gb=16, soft=C10_EK)
     if not only or 'getter_map' in only:
         import getters
         try:
@@ -201,8 +202,10 @@ def check_C01(tier, only):
     hs = C01_EK if tier == 'thorough' else ['c01_pressure_res', 'c01_dp_dv_res', 'c01_residual_entropy']
     ekc = ek_part(out, 'C01', tier, [('ext', h) for h in hs], only,
                   ['C01-a: verification model PolyEos (polynomial A of degree <= 3 in V,T,N0,N1; %s leading coefficients symbolic in [-3,3], the rest generic-position primes), state at powers of two: '
-                   'every getter must return exactly the closed-form partial derivative (sign, seeding, cache key)' % ('4' if tier == 'thorough' else '1')],
-                  nsym=4 if tier == 'thorough' else 1, timeout=10800 if tier == 'thorough' else 2400)
+                   'every getter must return exactly the closed-form partial derivative (sign, seeding, cache key); thorough: 11 getters, 3 at a time under 16 GB / 5400 s each, a harness beyond that is recorded as undecided' % ('2' if tier == 'thorough' else '1')],
+                  nsym=2 if tier == 'thorough' else 1, timeout=5400 if tier == 'thorough' else 2400,
+                  procs=3 if tier == 'thorough' else 16, mem_gb=16 if tier == 'thorough' else 40,
+                  soft=[h for h in C01_EK if h not in ('c01_pressure_res', 'c01_dp_dv_res', 'c01_residual_entropy')])
     cov['E-K'] = ekc
     if not only or 'getter_map' in only:
         import getters
@@ -328,10 +331,14 @@ def check_C03(tier, only):
     pats = json.load(open(os.path.join(VERIF, 'kani', 'c03_patterns.json')))
     hs = [p['name'] for p in pats if tier == 'thorough' or p['tier'] == 'quick']
     if not only or any(o not in ('slices', 'roots') for o in only):
-        ekc = ek_part(out, 'C03', tier, [('ext', h) for h in hs], [o for o in only if o not in ('slices', 'roots')],
+        ekc = ek_part(out, 'C03', tier, [('incrate', 'c03_validate_all_bits')] + [('ext', h) for h in hs], [o for o in only if o not in ('slices', 'roots')],
                       ['C03-a/b: State::new with NoResidual(1|2): one harness per concrete subset of the 8 optional inputs, all payloads symbolic f64 (every bit pattern): over-/under-determined sets and component-count '
                        'mismatches give an error; Ok implies T (and V, N_i when given) are echoed bitwise, are finite and not sign-negative, total_moles = sum, density = N/V; InvalidState only if a given value is invalid; '
-                       'the density iteration is selected exactly where the documented hierarchy says (probed with InitialDensity(-1))'], timeout=3000)
+                       'the density iteration is selected exactly where the documented hierarchy says (probed with InitialDensity(-1))',
+                       'C03-b (validation kernel, in-crate harness c03_validate_all_bits): the private fn validate(T, V, N) returns Ok exactly when the reduced temperature, volume and both mole numbers are finite and not sign-negative, for every bit pattern of the four f64 payloads (2 components)',
+                       'thorough tier: all %d patterns, 10 at a time under 10 GB / 1800 s each; a thorough-only pattern beyond that is recorded as undecided' % len(pats)],
+                      timeout=1800 if tier == 'thorough' else 3000, procs=10 if tier == 'thorough' else 16, mem_gb=10 if tier == 'thorough' else 40,
+                      soft=[p['name'] for p in pats if p['tier'] != 'quick'])
         cov['E-K'] = ekc
         cov['states'] = cov.get('states', 0) + ekc.get('states', 0); cov['transitions'] = cov.get('transitions', 0) + ekc.get('transitions', 0)
     cov.pop('_mir_path', None)
@@ -672,15 +679,22 @@ def check_C11(tier, only):
     inc = ['c11_cache_history_1', 'c11_cache_history_2', 'c11_cache_history_2_reach']
     pairs = json.load(open(os.path.join(VERIF, 'kani', 'c11_pairs.json')))
     ext = [p['name'] for p in pairs if p['tier'] == 'quick' or (tier == 'thorough' and p['tier'] == 'thorough')]
+    if tier == 'thorough' and not os.environ.get('VERIF_C11_ALL_PAIRS'):
+        # one pair costs 7-30 min and 17-21 GB: by default 16 of the 56 scalar pairs (each getter twice first, twice second);
+        # VERIF_C11_ALL_PAIRS=1 runs all 56
+        g = ['a', 'p', 's', 'dpdv', 'dsdt', 'dpdt', 'd2pdv2', 'd2sdt2']
+        want = set('c11_hist_%s_then_%s' % (g[i], g[(i + k) % 8]) for i in range(8) for k in (1, 3))
+        ext = [h for h in ext if h in want]
     if tier == 'thorough':
         inc += ['c11_cache_history_clone_2', 'c11_cache_history_3', 'c11_cache_history_3_reach']   # clone_2 alone takes ~10 min
     cov = ek_part(out, 'C11', tier, [('incrate', h) for h in inc] + [('ext', h) for h in ext], only,
                   ['cache level (in-crate): every history of <= %d calls of Cache::get_or_insert_with_{f64,d64,d2_64,hd64,hd364} with symbolic method, symbolic Derivative keys (2 components) and an oracle of arbitrary f64 '
                    'bit patterns returns bitwise the oracle value of the requested key; also across a clone taken between calls' % (3 if tier == 'thorough' else 2),
-                   'getter level (Kani, thorough tier only: one pair costs 7-30 min and 17-21 GB): for all 56 ordered pairs (h, g) of the 8 scalar residual getters (pairs involving the component-indexed getters dp_dni, dmu_dni, mu, dmu_dt did not finish in 50 min and are not run): g evaluated after h on the same state equals the closed form (one-monomial model A = V^3 T^3 N0^2 N1^2, concrete component indices: the solver decides the compiled plumbing, not the values)',
+                   'getter level (Kani, thorough tier only: one pair costs 7-30 min and 17-21 GB; 16 pairs by default, all 56 with VERIF_C11_ALL_PAIRS=1; a pair beyond 3600 s / 26 GB is recorded as undecided): for ordered pairs (h, g) of the 8 scalar residual getters (pairs involving the component-indexed getters dp_dni, dmu_dni, mu, dmu_dt did not finish in 50 min and are not run): g evaluated after h on the same state equals the closed form (one-monomial model A = V^3 T^3 N0^2 N1^2, concrete component indices: the solver decides the compiled plumbing, not the values)',
                    'getter level (E-M getter map): every derivative getter of residual_properties.rs / properties.rs reduces on its MIR to sel(c, ideal, sign * R[key]) where R[key] is the keyed cache lookup get_or_compute_derivative_residual: no getter reads or writes the cache in any other way (18 getters, symbolic selector and component indices, z3)',
                    'thread schedules are not covered (Kani does not model concurrency): not claimed'],
-                  timeout=7200 if tier == 'thorough' else 2400)
+                  timeout=3600 if tier == 'thorough' else 2400, procs=3 if tier == 'thorough' else 16, mem_gb=26 if tier == 'thorough' else 40,
+                  soft=ext + ['c11_cache_history_3', 'c11_cache_history_3_reach'])
     if not only or 'getter_map' in only:
         import getters
         try:
